@@ -32,7 +32,7 @@ def _traced(f):
     def wrapper(*args, **kwargs):
         b = sig.bind(*args, **kwargs)
         b.apply_defaults()
-        key = f.__name__ + '/' + '/'.join(str(v) for v in b.arguments.values())
+        key = f.__name__ + '/' + '/'.join((f'{v.shape}{v.dtype.str}{v.tolist()}' if isinstance(v, numpy.ndarray) else str(v)) for v in b.arguments.values())
         _enter(key)
         try:
             return f(*args, **kwargs)
@@ -107,6 +107,55 @@ def f_silent(x):
     return r
 
 
+_BASES = {
+    'sq': numpy.array([[1., 2., 3.], [4., 5., 6.], [7., 8., 10.]]),
+    'sym': numpy.array([[2., 1.], [1., 3.]]),
+    'rect': numpy.array([[1, 2, 3], [4, 5, 6]]),
+    'ints': numpy.array([[0, 1], [256, 65536]]),
+}
+
+
+def decode_arg(a):
+    '''JSON argument -> Python value.  {"arr": [base, variant]} stands for an ndarray built by one of several routes whose VALUES may or may not agree.'''
+    if not (isinstance(a, dict) and 'arr' in a):
+        return a
+    base, variant = a['arr']
+    A = _BASES[base].copy()
+    if variant == 'C':
+        return A
+    if variant == 'F':       # same value, other memory order
+        return numpy.asfortranarray(A)
+    if variant == 'T':       # transposed view: other value (unless symmetric), same memory
+        return A.T
+    if variant == 'FT':      # Fortran-ordered transpose: other value whose memory image equals that of A
+        return numpy.asfortranarray(A.T)
+    if variant == 'TC':      # contiguous copy of the transpose
+        return numpy.ascontiguousarray(A.T)
+    if variant == 'flat':
+        return A.ravel()
+    if variant == 'narrow':  # same numbers, narrower element type: the result reports the dtype, so this is another value
+        return A.astype(numpy.float32 if A.dtype.kind == 'f' else numpy.int32)
+    if variant == 'swap':    # same numbers, other byte order
+        return A.astype(A.dtype.newbyteorder())
+    if variant == 'strided':
+        big = numpy.zeros((A.shape[0], A.shape[1] * 2), dtype=A.dtype)
+        big[:, ::2] = A
+        return big[:, ::2]
+    raise ValueError(variant)
+
+
+ARR_VARIANTS = ['C', 'F', 'T', 'FT', 'TC', 'flat', 'narrow', 'swap', 'strided']
+
+
+@cache.function
+@_traced
+def f_arr(a, w=1):
+    treelog.info('array argument of shape', a.shape)
+    weights = numpy.arange(1, a.size + 1).reshape(a.shape)
+    r = (a.shape, a.dtype.kind + str(a.dtype.itemsize), float((a * weights).sum()) * w, a.tolist())
+    return r
+
+
 _SYSTEMS = {}
 
 
@@ -130,7 +179,7 @@ def sys_solve(n, kappa, cons):
     return system.solve(arguments={'kappa': numpy.array(float(kappa))}, constrain=constrain)
 
 
-FUNCS = dict(f_scalar=f_scalar, f_dict=f_dict, f_big=f_big, f_nutils=f_nutils, f_kw=f_kw, f_fails=f_fails, f_nested=f_nested, f_silent=f_silent, sys_solve=sys_solve)
+FUNCS = dict(f_arr=f_arr, f_scalar=f_scalar, f_dict=f_dict, f_big=f_big, f_nutils=f_nutils, f_kw=f_kw, f_fails=f_fails, f_nested=f_nested, f_silent=f_silent, sys_solve=sys_solve)
 
 
 class Fib(cache.Recursion, length=2):
